@@ -1,6 +1,6 @@
 (* C04 - command combinators and builder chains mean what they say.  Statements only. *)
 From Coq Require Import List Arith Bool.
-From Crux Require Import Rt.Lang Rt.Rt Rt.Host Rt.Ref Rt.RefProps Rt.Check.
+From Crux Require Import Rt.Lang Rt.Rt Rt.Host Rt.Ref Rt.RefProps Rt.RefLaws Rt.Check.
 Import ListNotations.
 
 (* Full statement (kept visible): for every command and every schedule the runtime model's trace
@@ -27,6 +27,20 @@ Theorem C04_into_identity : forall f c acts, no_spawn acts = true -> ref_direct 
 Proof. exact into_id. Qed.
 Theorem C04_nesting_to_any_depth : forall k f c acts, no_spawn acts = true -> ref_direct (3 * k + f) (wrapn k c) acts = ref_direct f c acts.
 Proof. exact nesting_invariant. Qed.
+
+(* done is a unit for then on the RIGHT as well, and for and on either side; all of nothing is done.  These wrappers
+   are not uniform (the sequence node disappears when its first part has finished, the done part of an `and`
+   runs once), so they are proved by a simulation relation between residual commands (Rt/RefLaws.v): exact
+   equality of the whole traces - effects, events, result codes of resolutions, done flags - for every command
+   and every schedule of inspections, resolutions and drops. *)
+Theorem C04_then_done_right_unit : forall f c acts, no_spawn acts = true -> ref_direct (S f) (CThen c c_done) acts = ref_direct f c acts.
+Proof. exact then_done_right. Qed.
+Theorem C04_and_done_left_unit : forall f c acts, no_spawn acts = true -> ref_direct (S f) (CAnd c_done c) acts = ref_direct f c acts.
+Proof. exact and_done_left. Qed.
+Theorem C04_and_done_right_unit : forall f c acts, no_spawn acts = true -> ref_direct (S f) (CAnd c c_done) acts = ref_direct f c acts.
+Proof. exact and_done_right. Qed.
+Theorem C04_all_of_nothing_is_done : forall f acts, no_spawn acts = true -> ref_direct (S f) (CAll []) acts = ref_direct (S f) c_done acts.
+Proof. exact all_nil_is_done. Qed.
 
 (* then: done is a left unit (after one step the whole state is that of c) ... *)
 Theorem C04_then_done_left_unit : forall f en c n,
